@@ -14,6 +14,7 @@ import (
 	"time"
 
 	"github.com/cespare/xxhash/v2"
+	"github.com/wundergraph/astjson"
 
 	"github.com/wundergraph/graphql-go-tools/v2/pkg/engine/resolve"
 
@@ -123,6 +124,7 @@ type startRec struct {
 }
 
 type trigRec struct {
+	counted   int // TriggerCountInc reported for it (by its start-up goroutine)
 	idx       int
 	key       string
 	up        resolve.SubscriptionUpdater
@@ -145,6 +147,7 @@ type reporter struct {
 	subInc, subDec, trInc, trDec int
 	subNeg, trNeg                bool
 	lateInc                      bool
+	earlyDec                     string
 	updates                      int
 }
 
@@ -180,6 +183,7 @@ func (r *reporter) TriggerCountInc(c int) {
 			if !found {
 				r.lateInc = true
 			}
+			st.trig.counted += c
 		} else if r.trInc-r.trDec > reg.Triggers {
 			r.lateInc = true
 		}
@@ -192,6 +196,26 @@ func (r *reporter) TriggerCountDec(c int) {
 	r.trDec += c
 	if r.trDec > r.trInc {
 		r.trNeg = true
+	}
+	// the running count: every removal deletes the trigger BEFORE it reports the Dec
+	// (both under Resolver.mu), so after a Dec the count still covers every trigger that
+	// was reported initialised and is still registered
+	if r.in.r != nil && c > 0 {
+		reg := r.in.r.VerifRegistry()
+		live := 0
+		for _, t := range r.in.trigs {
+			if t.counted <= 0 {
+				continue
+			}
+			for _, u := range reg.Updaters {
+				if u == t.up {
+					live++
+				}
+			}
+		}
+		if r.trInc-r.trDec < live && r.earlyDec == "" {
+			r.earlyDec = fmt.Sprintf("after TriggerCountDec(%d) the running count is %d (Inc %d, Dec %d) although %d trigger(s) reported as initialised are still registered", c, r.trInc-r.trDec, r.trInc, r.trDec, live)
+		}
 	}
 	r.in.mu.Unlock()
 }
@@ -240,13 +264,14 @@ type inst struct {
 	early   []Finding // violations detected while running (sharing)
 	overlap bool      // a trigger id was re-created while the previous trigger of the same key was still winding down
 
-	shutdownAt  int
-	shutdownRet int
-	aborted     bool
-	keyStarts   map[string]int
-	caller      map[int64]*startRec // goroutine -> upstream whose Complete/Error call is running on it
-	startG      map[int64]*startRec // start-up goroutine -> the Start call it made
-	t0          time.Time           // (virtual) time at which the instance was built
+	shutdownAt   int
+	shutdownRet  int
+	aborted      bool
+	keyStarts    map[string]int
+	caller       map[int64]*startRec // goroutine -> upstream whose Complete/Error call is running on it
+	startG       map[int64]*startRec // start-up goroutine -> the Start call it made
+	t0           time.Time           // (virtual) time at which the instance was built
+	sharedFilter *resolve.SubscriptionFilter
 }
 
 func (in *inst) tickL() int { in.now++; return in.now }
@@ -294,7 +319,7 @@ func hookPayload(name string) string {
 	return fmt.Sprintf(`{"data":{"v":"hook.%s","k":1}}`, name)
 }
 
-func planFor(s Session, ds resolve.SubscriptionDataSource) *resolve.GraphQLSubscription {
+func planFor(s Session, ds resolve.SubscriptionDataSource, shared *resolve.SubscriptionFilter) *resolve.GraphQLSubscription {
 	fields := []*resolve.Field{{Name: []byte("v"), Value: &resolve.String{Path: []string{"v"}}}}
 	if s.Shape == 1 {
 		fields = append(fields, &resolve.Field{Name: []byte("k"), Value: &resolve.Integer{Path: []string{"k"}}})
@@ -318,10 +343,33 @@ func planFor(s Session, ds resolve.SubscriptionDataSource) *resolve.GraphQLSubsc
 			Values:    []resolve.InputTemplate{{Segments: []resolve.TemplateSegment{{SegmentType: resolve.StaticSegmentType, Data: []byte("1")}}}},
 		}}
 	}
+	if s.FilterVar != 0 {
+		// ONE filter object for every subscriber (plans come from a cache); the verdict
+		// depends on the subscriber's own variable fk
+		p.Filter = shared
+	}
 	return p
 }
 
-func filtered(s Session, ev int) bool { return s.Filter && ev == 2 }
+// sharedVarFilter: IN(data.k; $fk) with a plain variable template.
+func sharedVarFilter() *resolve.SubscriptionFilter {
+	return &resolve.SubscriptionFilter{In: &resolve.SubscriptionFieldFilter{
+		FieldPath: []string{"data", "k"},
+		Values: []resolve.InputTemplate{{Segments: []resolve.TemplateSegment{{SegmentType: resolve.VariableSegmentType, VariableKind: resolve.ContextVariableKind,
+			VariableSourcePath: []string{"fk"}, Renderer: resolve.NewPlainVariableRenderer()}}}},
+	}}
+}
+
+func evKind(ev int) int {
+	if ev == 2 {
+		return 2
+	}
+	return 1
+}
+
+func filtered(s Session, ev int) bool {
+	return (s.Filter && ev == 2) || (s.FilterVar != 0 && evKind(ev) != s.FilterVar)
+}
 
 // ---- fake data source
 
@@ -698,6 +746,8 @@ func (in *inst) onHook(hc resolve.StartupHookContext, input []byte) error {
 		in.mu.Unlock()
 	}
 	if fail {
+		// a slow hook: it fails at a moment the scheduler chooses (the subscriber may be gone by then)
+		in.point("hook:" + name + ":fails")
 		in.mu.Lock()
 		if s != nil {
 			s.hookFail = true
@@ -874,6 +924,7 @@ func newInst(sc *Scenario, s *sched.Sched) *inst {
 	in := &inst{sc: sc, s: s, byName: map[string]*subState{}, keyStarts: map[string]int{}, caller: map[int64]*startRec{}, startG: map[int64]*startRec{}}
 	in.rep = &reporter{in: in}
 	in.t0 = time.Now()
+	in.sharedFilter = sharedVarFilter()
 	if sc.Hook {
 		in.ds = &hookDS{fakeDS{in}}
 	} else {
@@ -906,6 +957,9 @@ func (in *inst) rctx(s *subState) *resolve.Context {
 	c := resolve.NewContext(s.ctx)
 	c.SubgraphHeadersBuilder = hdrBuilder{s.spec.Hdr}
 	c.ExecutionOptions.SendHeartbeat = s.spec.HB
+	if s.spec.FilterVar != 0 {
+		c.Variables = astjson.MustParseBytes([]byte(fmt.Sprintf(`{"fk":%d}`, s.spec.FilterVar)))
+	}
 	return c
 }
 
@@ -930,7 +984,7 @@ func (in *inst) removedByCallL(t *subState, kind string, call, ret int) {
 
 func (in *inst) runSession(s *subState) {
 	ss := s.spec
-	plan := planFor(ss, in.ds)
+	plan := planFor(ss, in.ds, in.sharedFilter)
 	if ss.Sync {
 		in.mu.Lock()
 		s.called = true
@@ -1023,6 +1077,19 @@ func (in *inst) unsubscribe(s *subState, kind string) {
 // waitAfter parks the caller until the subscriber got spec.After data messages
 // (or its subscription was completed).
 func (in *inst) waitAfter(s *subState) {
+	if in.s != nil && s.spec.AfterSub != "" {
+		// the action waits until another subscription (of the same client) has been completed
+		o := in.byName[s.spec.AfterSub]
+		in.s.PointWhen(s.spec.Name+":after-"+s.spec.AfterSub+"-completed", func() bool {
+			in.mu.Lock()
+			defer in.mu.Unlock()
+			if in.aborted || o == nil || (o.called && o.regRet != 0 && !o.subscribed) {
+				return true
+			}
+			return o.completed != nil && isClosed(o.completed)
+		})
+		return
+	}
 	if (s.spec.After <= 0 && !s.spec.AfterDone) || in.s == nil {
 		return
 	}
